@@ -1284,7 +1284,7 @@ pub fn run(args: &Args, model: &mut Model) -> Report {
 /// fixed scenarios on rfsm-expression and ECMAScript parents
 pub fn run_real(_args: &Args, rep: &mut Report, only: Option<&Value>) {
     for dm in ["rfsm-expression", "ecmascript"] {
-        for sc in ["params-only-declared", "event-invokeid-and-finalize", "invoke-argument-error", "reply-by-origin"] {
+        for sc in ["params-only-declared", "event-invokeid-and-finalize", "invoke-argument-error", "reply-by-origin", "cancelled-child-generated-id"] {
             if let Some(v) = only {
                 if v["scenario"].as_str() != Some(sc) || v["datamodel"].as_str() != Some(dm) {
                     continue;
@@ -1361,6 +1361,29 @@ fn real_scenario(sc: &str, dm: &str) -> (String, Vec<(&'static str, String)>) {
             );
             // one error event (one failing invoke, attempted once), handled before e1; nothing new later
             (xml, vec![("error-not-handled-before-next-event", "e1-after-errors|1".to_string()), ("invoke-attempted-again", "e2-after-errors|1".to_string()), ("invoke-attempts", "#invoke=2".to_string())])
+        }
+        // an <invoke> WITHOUT id attribute (the platform generates the invoke id) in a state that is left and
+        // re-entered in one microstep: the cancelled first child says k.bye from its onexit while the second
+        // invocation is already registered — the parent must not process it (each invocation needs an id of
+        // its own, the dequeue filter goes by the id)
+        "cancelled-child-generated-id" => {
+            let child = format!(
+                "<scxml xmlns=\"http://www.w3.org/2005/07/scxml\" version=\"1.0\" datamodel=\"{dm}\" name=\"child\" initial=\"r\">\
+                 <state id=\"r\"><onexit><send event=\"k.bye\" target=\"#_parent\"/></onexit></state></scxml>",
+                dm = dm
+            );
+            let xml = format!(
+                "{head}<datamodel><data id=\"n\" expr=\"0\"/></datamodel>\
+                 <state id=\"s0\"><onentry><send event=\"go\" delay=\"300ms\"/></onentry>\
+                   <invoke type=\"scxml\"><content>{child}</content></invoke>\
+                   <transition event=\"go\" cond=\"n == 0\" target=\"s0\"><assign location=\"n\" expr=\"1\"/></transition>\
+                   <transition event=\"go\" cond=\"n == 1\"><script>mark('end', n)</script></transition>\
+                   <transition event=\"k.bye\"><script>mark('bye-from-cancelled-child', _event.invokeid)</script></transition>\
+                 </state></scxml>",
+                head = head(dm),
+                child = child
+            );
+            (xml, vec![("scenario-did-not-finish", "end|1".to_string()), ("event-of-cancelled-child-processed", "!bye-from-cancelled-child".to_string())])
         }
         // the child answers the parent's question by the session address it reads from _event.origin
         // (not by `#_parent`): the reply is still an event of that invocation — it carries the
